@@ -1,7 +1,7 @@
 (* C03 — Allocation obeys the register file: class, width, reserved, pinned registers. *)
 From Avo Require Import Base.Prelude.
 From stdpp Require Import gmap.
-From Avo Require Import Base.MaskSet Model.IR Model.RegFile Model.RegSpec Model.Liveness Model.Alloc Model.Cleanup Model.Pipeline Proofs.RegProofs Proofs.AllocProofs Proofs.AllocLoop Proofs.AllocCorrect.
+From Avo Require Import Base.MaskSet Model.IR Model.RegFile Model.RegSpec Model.Liveness Model.Alloc Model.Cleanup Model.Pipeline Proofs.RegProofs Proofs.AllocProofs Proofs.AllocLoop Proofs.AllocCorrect Proofs.PipelineProofs.
 Open Scope N_scope.
 
 (* physical registers named by the author (and implicit operands) are left exactly as written *)
@@ -53,3 +53,11 @@ Print Assumptions allocation_obeys_register_file.
 Theorem allocator_rounds_bounded : forall a, awf a -> a_allocate (S (size (a_poss a))) a <> Err EOutOfFuel.
 Proof. exact allocate_never_out_of_fuel. Qed.
 Print Assumptions allocator_rounds_bounded.
+
+(* the whole compile pipeline of the model (clean-up, label targets, CFG, zero-extension, liveness,
+   allocation, binding, VerifyAllocation, frame, self-move pruning): whenever it returns a function,
+   no operand of any instruction of that function is a virtual register *)
+Theorem compiled_code_is_physical : forall rf f c, compile rf f = OK c ->
+  forall i r, In i (instructions (c_nodes c)) -> In r (instr_registers i) -> reg_is_virtual r = false.
+Proof. exact compile_leaves_no_virtual. Qed.
+Print Assumptions compiled_code_is_physical.
